@@ -323,6 +323,16 @@ func init() {
 			{"F6", "the per-state path table of ParseSIPMsg (for every state every path to a return: verdict set, returned offset, state left in the object, field actions; variables abstracted, conditions merged) equals the reviewed reference table committed under sa/ref/", func(c *Ctx) { pathRefRule(c, "F6", "ParseSIPMsg", "SIPMsg") }},
 			{"F5", "the Content-Length header is always handed to its typed parser (shared with C01-R3b): the dispatch state of ParseHdrLine is never left undispatched and the dispatcher reports a non-zero verdict only after storing a typed state, so a cut after the colon cannot turn Content-Length into a generic header and lose the body length", ruleF5},
 			{"F7", "one store per header: the typed-value accessors (parameterless methods returning the address of a receiver field: PHdrVals.GetCLen, GetExpires, GetFrom, GetTo, ...) are injective per holder type, so Content-Length is never stored in, or read from, the object of another header", ruleF7},
+			{"F8", "where the body starts: the decision table of the empty line in ParseHdrLine (shared with C07-T7) — CR LF ends the header block at index+2, a lone CR at index+1 once the next byte is there, a lone LF at index+1 at once without look-ahead — so a message whose blank line is the last byte of the buffer is complete", func(c *Ctx) {
+				t := &Ctx{Prog: c.Prog, Prop: c.Prop}
+				ruleT7(t)
+				for _, o := range t.obls {
+					o.Key = "F8:" + strings.TrimPrefix(o.Key, "T7:")
+					o.Rule = "F8"
+					c.obls = append(c.obls, o)
+				}
+				c.expectMin("F8", 4)
+			}},
 			{"F4", "pipelining: the message start offset is written once, in state Init, from the offs parameter, never on resume; views Buf/RawMsg end at the returned offset; PSIPMsg.Reset composition (C12-Z3)", ruleF4},
 		},
 		Assumptions: []string{"ParseHeaders returns the offset after the blank line (C07)"},
